@@ -98,6 +98,10 @@ def replay_rshift_features(ns, ob, model):
     tables = [[("misc_feature", [(a, b, 1)], {"label": ["x"]})] for (a, b) in shorts]
     for (p, q) in itertools.product(shorts, repeat=2):
         tables.append([("misc_feature", [(p[0], p[1], 1), (q[0], q[1], 1)], {"label": ["x"]})])
+    ftype = model.get("ftype")
+    if isinstance(ftype, str) and ftype and ftype != "misc_feature":
+        # the counter-model names a feature type (`source` is special-cased by the code): same locations with that type
+        tables = [[(ftype, parts, quals) for (_t, parts, quals) in tb] for tb in tables] + tables
     for ks in sorted({k % n, (k % n) or 1, 1, n - 1}):
         for feats in tables:
             rec = CircularRecord(Seq(letters), id="r", features=bc.build_features(feats))
